@@ -176,6 +176,13 @@ def run_property(prop, tier, seed, mods, jobs=16, only='', rebaseline=False, t0=
                     known_hits.append((k, entry))
                 else:
                     violations.append(entry)
+            elif label.startswith('no-unexpected-exception') and any(
+                    str((o.get('cex') or {}).get('native_outcome', '')).startswith('returned') for o in failing):
+                # the exception exists only under the interpreter: the real function returns normally on the very
+                # input the solver proposed -- an engine limitation, never a violation
+                entry['why'] = ('exception raised only under the interpreter; the native run of the proposed input '
+                                'returns normally (engine limitation): ' + label)
+                undecided.append(entry)
             elif any(o['verdict'] == 'sat' for o in failing):
                 whys = ' '.join(str((o.get('cex') or {}).get('why', '')) for o in failing)
                 if 'no native replay' in whys or 'opaque' in whys:
